@@ -67,8 +67,9 @@ def child_table(fnode, where):
     for st in ast.walk(fnode):
         if isinstance(st, ast.Assign) and isinstance(st.targets[0], ast.Name) and isinstance(st.value, ast.BinOp):
             l = st.value.left
-            if (isinstance(l, ast.Call) and isinstance(l.func, ast.Attribute) and l.func.attr == "reshape"
-                    and ast.unparse(l.func.value) == "inverse" and "len(vertices)" in ast.unparse(st.value.right)):
+            if (isinstance(l, ast.Call) and isinstance(l.func, ast.Attribute) and l.func.attr == "reshape" and isinstance(st.value.op, ast.Add)
+                    and isinstance(l.func.value, ast.Name) and isinstance(st.value.right, ast.Call) and ast.unparse(st.value.right.func) == "len"
+                    and l.args and isinstance(l.args[0], ast.Tuple)):  # `<inverse index>.reshape((-1, W)) + len(<vertices>)`, whatever the locals are called
                 mid_var = st.targets[0].id
                 shp = const_eval(l.args[0])
                 width = shp[1]
